@@ -8,7 +8,7 @@
    (taken in Rebalance(), released at the end of rebalance()), the membership information. *)
 From Verif Require Import Base.Prelude.
 
-Inductive tstate := TNil | TArmed | TFired.   (* s.rebalanceTimer: never set / armed for the reopen half / its callback has run *)
+Inductive tstate := TNil | TArmed | TFired.   (* s.rebalanceTimer: nil / armed for the reopen half / its callback is running *)
 
 Inductive rphase :=
   | POpen          (* streaming; the lock is free *)
@@ -49,12 +49,14 @@ Definition enter (s : rstate) : rstate * list rout :=
   match r_balancing s, r_timer s with
   | true, TArmed => (s, [])                                               (* timer.Stop() succeeded: Reset(delay) *)
   | true, TFired => (R (r_phase s) true TFired (r_blocked s) (S (r_deferred s)) (r_info s) (r_range s) (r_next s) (r_cycles s) (r_stopped s), [])
-                                                                          (* re-armed as a deferred Rebalance() *)
-  | _, _ =>
+                                                                          (* the reopen is running: re-armed as a deferred Rebalance() *)
+  | true, TNil => (s, [])                                                 (* the close step is running: nothing to do, the reopen that
+                                                                             follows reads the latest membership (repaired defect K6) *)
+  | false, _ =>
       match r_phase s with
       | POpen => (* lock free: BeforeRebalanceStart; balancing := true; Close(false) begins *)
           (R PClosing true (r_timer s) (r_blocked s) (r_deferred s) (r_info s) (r_range s) (r_next s) (r_cycles s) (r_stopped s), [BRS; BSStop])
-      | _ => (* the lock is held by the cycle in progress *)
+      | _ => (* not reachable: outside POpen a cycle is in progress and balancing is set *)
           (R (r_phase s) (r_balancing s) (r_timer s) (S (r_blocked s)) (r_deferred s) (r_info s) (r_range s) (r_next s) (r_cycles s) (r_stopped s), [])
       end
   end.
@@ -80,12 +82,12 @@ Definition r_step (s : rstate) (o : rop) : rstate * list rout :=
   | ReopenDone =>
       match r_phase s with
       | PReopening =>
-          (* Open() read the membership when it ran; balancing := false; unlock: a blocked notifier takes the lock *)
-          let s1 := R POpen false TFired (r_blocked s) (r_deferred s) (r_info s) (r_next s) (r_next s) (S (r_cycles s)) (r_stopped s) in
+          (* Open() read the membership when it ran; the timer is forgotten, balancing := false; unlock *)
+          let s1 := R POpen false TNil (r_blocked s) (r_deferred s) (r_info s) (r_next s) (r_next s) (S (r_cycles s)) (r_stopped s) in
           match r_blocked s with
           | O => (s1, [ASStart; ARE])
           | S b =>
-              let '(s2, outs) := enter (R POpen false TFired b (r_deferred s) (r_info s) (r_next s) (r_next s) (S (r_cycles s)) (r_stopped s)) in
+              let '(s2, outs) := enter (R POpen false TNil b (r_deferred s) (r_info s) (r_next s) (r_next s) (S (r_cycles s)) (r_stopped s)) in
               (s2, [ASStart; ARE] ++ outs)
           end
       | _ => (s, [])
